@@ -887,6 +887,9 @@ def _get_attribute(obj: Any, attr: str) -> Any:
     if is_private_attribute(attr):
         raise AttributeError("attempt to access private attribute '%s'" % attr)
     else:
+        if inspect.isdatadescriptor(inspect.getattr_static(obj, attr, None)):
+            # a property (or other data descriptor) is not a method: don't evaluate its getter here
+            raise AttributeError("attempt to access unexposed attribute '%s'" % attr)
         obj = getattr(obj, attr)
     if getattr(obj, "_pyroExposed", False):
         return obj
